@@ -42,6 +42,9 @@ LoadX(prog, dyn, q) ==
    k |-> l.k, ans |-> l.ans, ball |-> l.ball, lh |-> l.lh, out |-> l.out, gv |-> l.gv, ve |-> l.ve,
    cl |-> <<>>,          \* cl[u]: how often the cleanup of setup_call_cleanup instance u was started
    unspec |-> FALSE,
+   condb |-> {},         \* heights of m.cps that are the cut barrier of a running if-then-else condition
+   condcut |-> FALSE,    \* classification only: a cut local to an if-then-else condition was executed
+   diffrz |-> FALSE,     \* classification only: a variable had a suspended goal and a dif/2 constraint at the same time
    snap |-> EmptyStore,  \* store recorded by the marker goal '$snap' (compared by '$chk')
    nested |-> FALSE]     \* classification only: a cleanup entry was removed by a cut or by failure while the entry directly
                          \* below it is another cleanup entry whose goal is still running
@@ -57,6 +60,11 @@ ListItems(l) == IF IsF(l, ".", 2) THEN <<l.a[1]>> \o ListItems(l.a[2]) ELSE <<>>
 
 StGet(st, v) == IF v \in DOMAIN st THEN st[v] ELSE Nil
 Pending(st, x) == ListItems(StGet(st, FrzVar(x)))
+
+(* The Context argument of error(Formal, Context) is implementation defined; the machine writes '$ctx'.    *)
+(* A unification that succeeds only because two such contexts are equal is not specified: flag unspec.    *)
+RECURSIVE HasCtx(_)
+HasCtx(x) == IF x.t = "c" THEN \E j \in 1..Len(x.a) : HasCtx(x.a[j]) ELSE IsA(x, "$ctx")
 
 (* ---- setup_call_cleanup ---- *)
 RECURSIVE SccIdx(_, _, _)      \* indices of "scc" entries above lo, topmost first
@@ -102,8 +110,10 @@ PostThrow(m, m1) ==
   ELSE IF Len(m1.cps) >= Len(m.cps) THEN m1
   ELSE LET j == TopNonCatch(m.cps, Len(m.cps)) IN
        IF j >= 1 /\ Len(m1.cps) = j - 1 THEN m1          \* plain backtracking (entry j was resumed)
-       ELSE LET idx == SccIdx(m.cps, Len(m.cps), Len(m1.cps)) IN
-            IF idx = <<>> THEN m1 ELSE Resume(m, m1, idx, m1.gs, m1.st)
+       ELSE LET idx == SccIdx(m.cps, Len(m.cps), Len(m1.cps))
+                cp == m.cps[Len(m1.cps) + 1]              \* the catch frame whose catcher unified with the ball
+                m2 == IF HasCtx(Apply(cp.st, cp.c)) THEN [m1 EXCEPT !.unspec = TRUE] ELSE m1
+            IN IF idx = <<>> THEN m2 ELSE Resume(m, m2, idx, m2.gs, m2.st)
 
 (* ---- attributes: suspended goals and disequalities ---- *)
 RECURSIVE AnyIdentical(_, _)
@@ -134,7 +144,7 @@ PostAttr(m1) ==
 Post(m, m1) == PostAttr(PostThrow(m, m1))
 
 -----------------------------------------------------------------------------
-StepX(m) ==
+StepY(m) ==
   IF m.steps >= MaxSteps \/ m.gs = <<>> THEN Post(m, Step(m))
   ELSE
   LET fr == m.gs[1]
@@ -145,7 +155,7 @@ StepX(m) ==
       h0 == Len(m.cps)
       Thr(ball) == Post(m0, Throw(m0, ball))
   IN
-  IF IsA(g, "!") THEN CutTo(m0, fr.cb, rest)
+  IF IsA(g, "!") THEN CutTo([m0 EXCEPT !.condcut = @ \/ (fr.cb \in m.condb)], fr.cb, rest)
   ELSE IF IsF(g, "$cut", 1) THEN CutTo(m0, g.a[1].i, rest)
   (* \+, forall/2, findall/3: as in Prolog.tla, but the continuation stays on the goal stack below the final  *)
   (* 'fail' (it is never executed): Prolog!Unwind finds the active catch/3 frames through their '$popcatch'   *)
@@ -222,12 +232,26 @@ StepX(m) ==
                 av1 == IF \E j \in 1..Len(av) : av[j] = x THEN av ELSE Append(av, x)
             IN [cont EXCEPT !.st = Bind(Bind(m.st, FrzVar(x), ListOf(Append(Pending(m.st, x), g.a[2]))), AttVars, ListOf(av1))]
   ELSE IF IsF(g, "dif", 2) THEN
-       LET u == Unify(m.st, g.a[1], g.a[2]) IN
+       LET u == Unify(m.st, g.a[1], g.a[2])
+           frz == \E v \in VarsOf(Apply(m.st, C2("-", g.a[1], g.a[2]))) : Pending(m.st, v) # <<>>
+       IN
        IF u.cyc THEN Finish(m0, "cyclic")
-       ELSE IF ~u.ok THEN cont
+       ELSE IF ~u.ok THEN [cont EXCEPT !.diffrz = @ \/ frz]
        ELSE IF Identical(m.st, g.a[1], g.a[2]) THEN Backtrack(m0)
-       ELSE [cont EXCEPT !.st = Bind(m.st, DifVar, ListOf(Append(ListItems(StGet(m.st, DifVar)), C2("-", g.a[1], g.a[2]))))]
+       ELSE [cont EXCEPT !.diffrz = @ \/ frz,
+                         !.st = Bind(m.st, DifVar, ListOf(Append(ListItems(StGet(m.st, DifVar)), C2("-", g.a[1], g.a[2]))))]
   ELSE Post(m, Step(m))
+
+(* a variable carries a suspended goal and occurs in a disequality at the same time (classification only) *)
+DifOnFrozen(st) ==
+  /\ AttVars \in DOMAIN st /\ DifVar \in DOMAIN st
+  /\ LET ps == ListItems(st[DifVar]) IN
+     \E j \in 1..Len(ps) : \E v \in VarsOf(Apply(st, ps[j])) : Pending(st, v) # <<>>
+
+StepX(m) ==
+  LET m2 == StepY(m)
+      m3 == IF m2.phase = "run" /\ m2.condb # {} THEN [m2 EXCEPT !.condb = {h \in @ : h <= Len(m2.cps)}] ELSE m2
+  IN IF m3.phase = "run" /\ ~m3.diffrz /\ DifOnFrozen(m3.st) THEN [m3 EXCEPT !.diffrz = TRUE] ELSE m3
 
 (* ---- invariants ---- *)
 (* the cleanup of every instance is started at most once; in a terminal state exactly once *)
